@@ -489,9 +489,8 @@ def _check(world, model, out, raw, a, b, line_cache, xcheck):
     elif not errs:
         if got != want:
             diff = {k: [got[k], want[k]] for k in got if got[k] != want[k]}
-            violation("hook-vs-one-file", f"layer files alias each other ({ident}): hook answers differ from the run with ONE file "
-                      f"holding user+project+env as bash reads them, on {sorted(diff)}", "hook:aliased-layers-vs-one-file",
-                      layers=texts, differences=diff, concatenated=one)
+            violation("hook-vs-one-file", f"{ident}: hook != ONE file user+project+env as bash reads them, on {sorted(diff)}",
+                      "hook:aliased-layers", layers=texts, differences=diff, concatenated=one)
     else:
         pre = {k: v for k, v in got.items() if not k.startswith("log:files")}
         post = {p.name for p in base.probes(world.tx) if p.event == "PostToolUse"}
